@@ -28,6 +28,9 @@ RULE = ('five generators for HTML and String templates: (1) soups of raw '
 RULE += (
          'Also: every invalid family inside comment / with / unless / '
          'let / in bodies; empty names with expr=. ')
+RULE += (
+         'End tags differing in letter case; start= names spelled with '
+         'regex metacharacters. ')
 ASSUMPTIONS = [
     'sources are <= 4 KB with nesting <= 60 (beyond that the recursive '
     'parser meets Python\'s recursion limit, a resource bound)',
